@@ -11,7 +11,8 @@ SOFT = ["a,b", "a, b", "[x]", "]", "[", "a b,c", "été", "€uro", "ünï", " l
         "a;b", "{x}", "#c", "(p)", "a:b", ":tagish", "100%", "тест", "日本", "two\r\nlines",
         "l1\nl2\n", "a\n.\nb", ".\nfirst line is a dot", "dot last\r\n.", "..", ".",
         # values that look like Sieve syntax without containing a quote or a backslash
-        "text: I am away", "text:", "text:\nbye\n.\n; discard", "text:\n.\n", "[a", "a]",
+        "text: I am away", "text:", "text:\nbye\n.\n; discard", "text:\n.\n", "text:\nbye\n.", "text:\r\nI am away\r\n.",
+        "text:\nbye\n.\nstop;\n.", "[a", "a]",
         "if true { discard; }", "/* c */", "# c", "1K", "True", "any of",
         # characters str.splitlines()/strip() treat as line breaks or blanks, zero-width and
         # byte-order marks, NBSP, Kelvin sign / dotless i / sharp s (case mapping pitfalls)
@@ -159,6 +160,12 @@ def gen_condition(rng, vals, d: Definition, kinds=None):
         d.strings += part + v
     elif kind == "body":
         v = vals.lst(1, 3)
+        if rng.random() < 0.15:
+            # a key that reads like a tag of the same test (its own match type, plain or
+            # negated, or another one): after the match type every argument is a key
+            v = list(v)  # (never edit a list object that other conditions may share)
+            v[rng.randrange(len(v))] = rng.choice([mt, tag, ":is", ":contains", ":raw"])
+            d.kinds.append("key-spelled-like-a-tag")
         d.conditions.append(("body", rng.choice([":raw", ":text"]), tag) + tuple(v))
         d.tests.append((neg, "body"))
         d.strings += v
@@ -166,6 +173,10 @@ def gen_condition(rng, vals, d: Definition, kinds=None):
     elif kind == "currentdate":
         zone, part = rng.choice(["+0100", "-0500", vals.s()]), rng.choice(["date", "year", vals.s()])
         v = vals.lst(1, 2)
+        if rng.random() < 0.15:
+            v = list(v)
+            v[rng.randrange(len(v))] = rng.choice([mt, tag, ":is", ":zone"])
+            d.kinds.append("key-spelled-like-a-tag")
         d.conditions.append(("currentdate", ":zone", zone, tag, part) + tuple(v))
         d.tests.append((neg, "currentdate"))
         d.strings += [zone, part] + v
